@@ -359,7 +359,8 @@ func suiteC20(rng *Rng, thorough bool, s *Sink) {
 		out := fmt.Sprintf("%s n=%d %s", map[string]string{"": "ok", "connect-error": "connect-error", "fetch-error": "fetch-error"}[errLine], count, strings.Join(parts, ";;"))
 		s.Line(tag, op, out)
 		// ---- the property, directly ----
-		full := sc.silent < 0 && !sc.noPing
+		// a device that falls silent only after more answers than the product has registers never falls silent in this run
+		full := (sc.silent < 0 || sc.silent >= rl.Len()) && !sc.noPing
 		if full {
 			if errLine != "" || count != rl.Len() || len(regLines) != rl.Len() {
 				viol(fmt.Sprintf("a healthy device of product 0x%04X must yield %d register lines (header says %d, %d lines, error %q)", sc.id, rl.Len(), count, len(regLines), errLine))
